@@ -443,7 +443,7 @@ def check(pid, tier, scratch, replay):
                                 'ParsePkScript: scripts matching no pay template are read as unsupported (ErrUnsupportedScript), nothing else',
                                 'extractAddressInfos: class / recipient / staking address / binding target = Exp(script); no classification of non-templates',
                                 'no panic in ParsePkScript, extractAddressInfos, DecodeRawTransaction, builders',
-                                'builders: PayToWitnessV0Address / constructStakingTxOut / binding script read back to the inputs'],
+                                'builders: PayToWitnessV0Address / constructStakingTxOut (every other case as the third output of one request of four: same address with another period and another address with the same period before it, the same address after it) / binding script read back to the inputs'],
                rule='TLC enumerates token sequences over an adversarial alphabet (spec/PkScriptGen.tla) and builder cases; cmd/pkscript fills payloads (seeded), adds random byte strings, mutated templates, every template prefix and long scripts, evaluates the real code and the consensus library; TLC judges every line (spec/PkScriptTrace.tla Judged)')
     vlib.write_evidence(pid, tier, 'model_checking', cov, time.time() - t0, len(viol), ASSUME)
     print('%s %s: %d cases enumerated by TLC, %d evaluations judged by TLC (%s), %d model states, violations=%d known=%d wall=%.0fs'
